@@ -20,6 +20,7 @@ Expected values: object identity of the frames the caller pushed, the level the 
 parameters (who catches) - nothing is computed by the code under test.
 """
 import json
+import operator
 
 import common
 import interp
@@ -592,6 +593,409 @@ def python_caller(res, r, base, tier):
                                         'what': f, 'result': run['result']})
 
 
+
+# --------------------------------------------------------------------------- namespaces of every shape under a Python caller
+#
+# Two further classes of inputs, run on the real classes only (the callables involved work on the namespace / on mappings that
+# are frames of it, which the interpreter model's callables cannot):
+#   (D) deep namespaces: the caller's TemplateDict already holds d entries when the template is called, for EVERY d of a range
+#       (and d around powers of two / round numbers far above it); the templates are one per tag that puts entries on the
+#       namespace (in by name / by expression / over mappings / batched, with, with mapping, with only, let, sub-template by
+#       name / with keyword arguments / with a client and keyword arguments, tree), alone and inside every enclosing block
+#       (try..except followed by a probe, try..finally, with, let, in), called with no client / a client / keyword arguments /
+#       both.  Nothing in the documented behaviour limits the number of data sources.
+#   (E) mappings that are frames of the namespace change size while a block is open: REQUEST.set (the request passed as a
+#       mapping), a Python function that adds a key to / deletes a key from the mapping it is given or the top-most dictionary of
+#       the namespace it is handed, the item of a `dtml-in .. mapping`, a sub-template that does so - in the body / handler /
+#       else / finally block of every block tag x every exit (normal, dtml-raise caught / not caught, undefined name,
+#       a raising callable, dtml-return) x every enclosing block, as a grid and as random nestings.
+# Oracle (both): the frames the caller pushed are, object for object, what the namespace holds after the call and the level is
+# what the caller set; every block of the template is bracketed by a pair of probes, and whenever the second probe of a pair
+# runs it sees exactly the frames (identity, order) and the level the first one saw.
+
+class NsRequest(dict):
+    """a mapping with the `set` method of Zope's REQUEST"""
+
+    def set(self, name, value):
+        self[name] = value
+
+
+class NsWorld:
+    def __init__(self):
+        from DocumentTemplate import HTML
+        self.pre = {}
+        self.bad = []
+        self.pairs = 0
+        self.counter = 0
+        w = self
+
+        def probe(md, ident, second):
+            # (of a very deep namespace the probes keep the number of entries and the 64 on top; the caller compares all)
+            d = md._data
+            snap = ((len(d), d[-64:]) if len(d) > 256 else (len(d), list(d)), md.level)
+            if not second:
+                w.pre[ident] = snap
+                return ''
+            first = w.pre.pop(ident, None)
+            if first is None:
+                return ''
+            w.pairs += 1
+            (n0, f0), (n1, f1) = first[0], snap[0]
+            if n0 != n1 or len(f0) != len(f1) or any(x is not y for x, y in zip(f0, f1)):
+                w.bad.append('block %s: the namespace holds %d entries after the block, %d before it (or different / '
+                             'reordered entries)' % (ident, n1, n0))
+            if first[1] != snap[1]:
+                w.bad.append('block %s: recursion level %r after the block, %r before it' % (ident, snap[1], first[1]))
+            return ''
+
+        def grow(m):
+            w.counter += 1
+            m['grown%d' % w.counter] = 1
+            return ''
+
+        def growtop(md):
+            for f in reversed(md._data):
+                if type(f) in (dict, NsRequest):
+                    grow(f)
+                    break
+            return ''
+
+        def shrink(md):
+            for f in reversed(md._data):
+                if type(f) in (dict, NsRequest):
+                    ks = [k for k in f if isinstance(k, str) and k.startswith('grown')]
+                    if ks:
+                        del f[ks[0]]
+                        break
+            return ''
+
+        def boom():
+            raise ValueError('boom')
+
+        class Node:
+            def __init__(s, nid, kids):
+                s.nid, s.kids = nid, kids
+
+            def tpId(s):
+                return s.nid
+
+        class Resp:
+            def setCookie(s, *a, **k):
+                pass
+        self.req = NsRequest(ra='RA')
+        self.obj = proggen.Obj(960, {'oa': 'OA'})
+        self.client = proggen.Obj(961, {'ca': 'CA'})
+        self.root = Node('r', [Node('a', [Node('a1', [])]), Node('b', [])])
+        self.sub = HTML('<dtml-var a>')
+        self.subm = HTML('<dtml-call "REQUEST.set(\'sm\', a)"><dtml-call "growtop(_)"><dtml-var a>')
+        self.subx = HTML('<dtml-call "growtop(_)"><dtml-with obj><dtml-call "REQUEST.set(\'sx\', 1)"><dtml-var nosuchname>'
+                         '</dtml-with>')
+        self.top = {'seq': [1, 2], 'seqm': [{'ma': 'MA'}, {'ma': 'MB'}], 'obj': self.obj, 'm1': {'ma': 'MA'}, 'a': 1,
+                    'sub': self.sub, 'subm': self.subm, 'subx': self.subx, 'probe': probe, 'grow': grow, 'growtop': growtop,
+                    'shrink': shrink, 'boom': boom, 'root': self.root, 'URL': 'u', 'RESPONSE': Resp(), 'REQUEST': self.req,
+                    'empty': []}
+
+    def reset(self):
+        self.pre.clear()
+        del self.bad[:]
+        for k in [k for k in self.req if k != 'ra']:
+            del self.req[k]
+        for d in [self.top, self.top['m1']] + self.top['seqm']:
+            for k in [k for k in d if isinstance(k, str) and k.startswith('grown')]:
+                del d[k]
+
+
+NS_CALLFORMS = ['plain', 'client', 'kw', 'client+kw', 'clients']
+
+
+def ns_call(w, t, md, held, level0, callform):
+    """one call by a Python caller whose namespace `md` holds the entries `held` (they are put there afresh)"""
+    w.reset()
+    md._data[:] = held
+    md.level = level0
+    client = {'plain': None, 'kw': None, 'client': w.client, 'client+kw': w.client, 'clients': (w.client, w.obj)}[callform]
+    ckw = {'callkw': 'CK'} if 'kw' in callform else {}
+    try:
+        out = t(client, md, **ckw)
+        res = {'ok': out}
+    except RecursionError:
+        res = {'raise': 'RecursionError', 'msg': ''}
+    except Exception as e:  # noqa  (the caller catches, whatever it is)
+        res = {'raise': type(e).__name__, 'msg': str(e)[:80]}
+    after = md._data
+    bad = list(w.bad)
+    if len(after) != len(held) or not all(map(operator.is_, after, held)):
+        bad.append('the caller\'s namespace held %d entries when the template was called; after the call it holds %d (or '
+                   'different / reordered entries; on top now: %.60r)' % (len(held), len(after), after[-1] if after else None))
+    if md.level != level0:
+        bad.append('the caller set recursion level %r; after the call it is %r' % (level0, md.level))
+    return res, bad
+
+
+def _pp(ident, src):
+    return '<dtml-var "probe(_, %r, 0)">%s<dtml-var "probe(_, %r, 1)">' % (ident, src, ident)
+
+
+# (D) one template per tag that puts entries on the namespace; %s = what is rendered inside (nothing here)
+NS_TAGS = [
+    ('in-name', '<dtml-in seq><dtml-var sequence-item></dtml-in>'),
+    ('in-expr', '<dtml-in "seq"><dtml-var sequence-item></dtml-in>'),
+    ('in-mapping', '<dtml-in seqm mapping><dtml-var ma></dtml-in>'),
+    ('in-batch', '<dtml-in seq size=1 start=2><dtml-var sequence-item></dtml-in>'),
+    ('in-batch-prev', '<dtml-in seq size=1 start=2 previous>p</dtml-in>'),
+    ('in-else', '<dtml-in empty>x<dtml-else>e</dtml-in>'),
+    ('with', '<dtml-with obj><dtml-var oa></dtml-with>'),
+    ('with-mapping', '<dtml-with m1 mapping><dtml-var ma></dtml-with>'),
+    ('with-only', '<dtml-with obj only><dtml-var oa></dtml-with>'),
+    ('let', '<dtml-let b=a c="b"><dtml-var c></dtml-let>'),
+    ('if', '<dtml-if a>y</dtml-if>'),
+    ('sub-name', '<dtml-var sub>'),
+    ('sub-kw', '<dtml-var "sub(None, _, a=2)">'),
+    ('sub-client-kw', '<dtml-var "sub(obj, _, a=2)">'),
+    ('try-except', '<dtml-try><dtml-var nosuchname><dtml-except>h</dtml-try>'),
+    ('tree', '<dtml-tree root branches_expr="kids"><dtml-var nid></dtml-tree>'),
+]
+NS_WRAPS = [
+    ('none', '%s'),
+    ('try', '<dtml-try>%s<dtml-except>E</dtml-try>'),
+    ('try-finally', '<dtml-try>%s<dtml-finally>F</dtml-try>'),
+    ('with', '<dtml-with obj>%s</dtml-with>'),
+    ('with-mapping', '<dtml-with m1 mapping>%s</dtml-with>'),
+    ('let', '<dtml-let b=a>%s</dtml-let>'),
+    ('in', '<dtml-in seq>%s</dtml-in>'),
+    ('try-with-let', '<dtml-try><dtml-with obj mapping><dtml-let b=a>%s</dtml-let></dtml-with><dtml-except>E</dtml-try>'),
+]
+
+
+def deep_namespaces(res, r, tier):
+    """every lookup on a namespace of d entries may cost d steps, so the depths are explored in three ways: (1) the whole family
+    (tag x enclosing block x call form) at every small depth; (2) every depth of a long range with a few members in rotation;
+    (3) a boundary search: what a template renders does not depend on how many entries lie below the ones it uses, so every
+    tag is rendered on an exponential grid of depths (up to 2**16 entries) and, wherever the outcome at two neighbouring grid
+    points differs, the depth at which it changes is located by bisection and the whole family is run at every depth around it"""
+    from DocumentTemplate import HTML
+    from DocumentTemplate._DocumentTemplate import TemplateDict
+    w = NsWorld()
+    family = []
+    for tn, tsrc in NS_TAGS:
+        for wn, wsrc in NS_WRAPS:
+            src = _pp('whole', wsrc % _pp('tag', tsrc))
+            try:
+                family.append((tn, wn, src, HTML(src)))
+            except Exception as e:  # noqa
+                res.oracle_fail.append({'case': {'family': 'deep namespace', 'src': src}, 'what': 'does not parse: %r' % (e,)})
+    plain = [f for f in family if f[1] == 'none']
+    wrapped = [f for f in family if f[1] != 'none']
+    md = TemplateDict()
+    md.guarded_getattr = None
+    md.guarded_getitem = None
+    fillers = []
+    reported = set()
+    runs = [0]
+
+    def run_at(depth, member, cf, level0=0):
+        tn, wn, src, t = member
+        while len(fillers) < depth:
+            fillers.append({'filler%d' % len(fillers): 1})
+        # `depth` entries below the one with the names (so that most lookups stay cheap): depth + 1 on entry
+        out, bad = ns_call(w, t, md, fillers[:depth] + [w.top], level0, cf)
+        runs[0] += 1
+        if 'raise' in out:
+            res.count('deep_namespace_call_raised=%s' % out['raise'])
+        for f in bad:
+            key = (tn, wn, cf, f[:40])
+            if key in reported:
+                continue
+            reported.add(key)
+            res.oracle_fail.append({'case': {'family': 'deep namespace under a Python caller', 'entries_on_entry': depth + 1,
+                                             'tag': tn, 'enclosing': wn, 'call': cf, 'src': src,
+                                             'namespace': '%d one-key dictionaries below the one with the names' % depth},
+                                    'what': f, 'result': out})
+        return out
+
+    def whole_family(depth):
+        for i, f in enumerate(family):
+            if f[1] == 'none':
+                for cf in NS_CALLFORMS:
+                    run_at(depth, f, cf, 0 if depth % 3 else 7)
+            else:
+                run_at(depth, f, NS_CALLFORMS[(depth + i) % len(NS_CALLFORMS)])
+    # (1)
+    for depth in range(0, 24 if tier == 'quick' else 300):
+        whole_family(depth)
+    # (2)
+    for depth in range(24, 2048 if tier == 'quick' else 20000):
+        for f, cf in [(plain[depth % len(plain)], NS_CALLFORMS[(depth // len(plain)) % len(NS_CALLFORMS)]),
+                      (r.choice(family), r.choice(NS_CALLFORMS))]:
+            run_at(depth, f, cf)
+    # (3)
+    grid = [0] + [1 << k for k in range(0, 17)]
+    boundaries = set()
+    for f in plain:
+        for cf in ('plain', 'client+kw'):
+            outs = [run_at(d, f, cf) for d in grid]
+            for (d0, o0), (d1, o1) in zip(zip(grid, outs), zip(grid[1:], outs[1:])):
+                if o0 != o1:
+                    lo, hi = d0, d1
+                    while hi - lo > 1:
+                        mid = (lo + hi) // 2
+                        if run_at(mid, f, cf) == o0:
+                            lo = mid
+                        else:
+                            hi = mid
+                    boundaries.add(hi)
+    res.count('deep_namespace_outcome_boundaries', len(boundaries))
+    around = set()
+    for b in sorted(boundaries)[:6]:
+        around.update(range(max(0, b - 8), b + 3))
+    for depth in sorted(around):
+        whole_family(depth)
+    n = runs[0]
+    res.evaluations += n
+    res.count('deep_namespace_runs', n)
+    res.nt(('deep-ns', len(family), n))
+    for tn, wn, src, t in family:
+        res.nt(('deep-ns', tn, wn))
+
+
+# (E)
+NS_MUTATORS = [
+    ('request-set', '<dtml-call "REQUEST.set(\'grownr%d\', 1)">'),
+    ('request-set-twice', '<dtml-call "REQUEST.set(\'grownr%d\', 1)"><dtml-call "REQUEST.set(\'grownq%d\', 2)">'),
+    ('grow-top', '<dtml-call "growtop(_)">'),
+    ('grow-mapping', '<dtml-call "grow(m1)">'),
+    ('grow-item', '<dtml-in seqm mapping><dtml-call "grow(_[\'sequence-item\'])"></dtml-in>'),
+    ('grow-shrink', '<dtml-call "growtop(_)"><dtml-call "growtop(_)"><dtml-call "shrink(_)">'),
+    ('shrink', '<dtml-call "shrink(_)">'),
+    ('sub-mutates', '<dtml-var subm>'),
+    ('sub-mutates-kw', '<dtml-var "subm(None, _, a=3)">'),
+    ('none', ''),
+]
+NS_EXITS = [
+    ('normal', 'n'),
+    ('raise', '<dtml-raise ValueError>x</dtml-raise>'),
+    ('undefined', '<dtml-var nosuchname>'),
+    ('callable-raises', '<dtml-call "boom()">'),
+    ('return', '<dtml-return a>'),
+    ('sub-raises', '<dtml-var subx>'),
+]
+# block tags with the place(s) where the mutation + exit happen: %(b)s; %(m)s is a mutation alone
+NS_BLOCKS = [
+    ('try-except', '<dtml-try>%(b)s<dtml-except>h</dtml-try>'),
+    ('try-except-named', '<dtml-try>%(b)s<dtml-except KeyError>k<dtml-except ValueError>v</dtml-try>'),
+    ('try-except-other', '<dtml-try>%(b)s<dtml-except TypeError>t</dtml-try>'),
+    ('try-else', '<dtml-try>%(m)s<dtml-except>h<dtml-else>%(b)s</dtml-try>'),
+    ('try-handler', '<dtml-try>%(m)s<dtml-var nosuchname><dtml-except>%(b)s</dtml-try>'),
+    ('try-finally', '<dtml-try>%(b)s<dtml-finally>f</dtml-try>'),
+    ('try-finally-block', '<dtml-try>t<dtml-finally>%(b)s</dtml-try>'),
+    ('try-in-try', '<dtml-try><dtml-try>%(b)s<dtml-finally>%(m)s</dtml-try><dtml-except>h</dtml-try>'),
+    ('with', '<dtml-with obj>%(b)s</dtml-with>'),
+    ('with-mapping', '<dtml-with m1 mapping>%(b)s</dtml-with>'),
+    ('with-request', '<dtml-with REQUEST mapping>%(b)s</dtml-with>'),
+    ('let', '<dtml-let b=a>%(b)s</dtml-let>'),
+    ('in', '<dtml-in seq>%(b)s</dtml-in>'),
+    ('in-mapping', '<dtml-in seqm mapping>%(b)s</dtml-in>'),
+    ('in-batch', '<dtml-in seq size=1 start=2>%(b)s</dtml-in>'),
+    ('in-else', '<dtml-in empty>x<dtml-else>%(b)s</dtml-in>'),
+    ('if', '<dtml-if a>%(b)s</dtml-if>'),
+    ('if-else', '<dtml-if nosuchflag>x<dtml-else>%(b)s</dtml-if>'),
+    ('unless', '<dtml-unless nosuchflag>%(b)s</dtml-unless>'),
+]
+NS_OUTER = [
+    ('none', '%s'),
+    ('let', '<dtml-let top="\'TOP\'">%s<dtml-var top></dtml-let>'),
+    ('with-in', '<dtml-with obj><dtml-in seq>%s<dtml-var oa><dtml-var sequence-item></dtml-in></dtml-with>'),
+    ('try', '<dtml-try>%s<dtml-except>O</dtml-try><dtml-var a>'),
+    ('try-finally', '<dtml-try>%s<dtml-finally>OF</dtml-try>'),
+    ('with-request', '<dtml-with REQUEST mapping>%s<dtml-var ra></dtml-with>'),
+]
+# what the caller has on its namespace (besides the dictionary with the names)
+NS_SHAPES = ['request-below', 'request-above', 'request-twice', 'no-request', 'kw-on-top']
+
+
+def ns_held(w, shape):
+    if shape == 'request-below':
+        return [{'below': 1}, w.req, w.top]
+    if shape == 'request-above':
+        return [w.top, w.req]
+    if shape == 'request-twice':
+        return [w.req, w.top, {}, w.req]
+    if shape == 'kw-on-top':
+        return [w.req, w.top, {'kwtop': 1}]
+    return [{}, w.top]
+
+
+def ns_random_block(r, depth, state):
+    """a random nesting of block tags with mutations and exits at random places, every block bracketed by probes"""
+    state[0] += 1
+    ident = 'b%d' % state[0]
+
+    def piece():
+        x = r.random()
+        if depth > 0 and x < 0.45:
+            return ns_random_block(r, depth - 1, state)
+        if x < 0.8:
+            state[0] += 1
+            m = r.choice(NS_MUTATORS[:-1])[1]
+            return m.replace('%d', str(state[0]))
+        if x < 0.93:
+            return r.choice(NS_EXITS)[1]
+        return r.choice(['<dtml-var a>', 'txt', '<dtml-var sub>'])
+    body = ''.join(piece() for _ in range(r.choice([1, 2, 2, 3])))
+    mut = r.choice(NS_MUTATORS)[1].replace('%d', str(state[0]) + 'm')
+    return _pp(ident, r.choice(NS_BLOCKS)[1] % {'b': body, 'm': mut})
+
+
+def mutated_frames(res, r, tier):
+    from DocumentTemplate import HTML
+    from DocumentTemplate._DocumentTemplate import TemplateDict
+    w = NsWorld()
+    md = TemplateDict()
+    md.guarded_getattr = None
+    md.guarded_getitem = None
+    progs = []
+    # the grid: block x mutation x exit, the enclosing block / mutation-before-or-after-the-exit / namespace shape / call form in
+    # rotation (thorough: all enclosing blocks)
+    i = 0
+    for bn, bsrc in NS_BLOCKS:
+        for mn, msrc in NS_MUTATORS:
+            for en, esrc in NS_EXITS:
+                outers = NS_OUTER if tier == 'thorough' else [NS_OUTER[(i + i // 6) % len(NS_OUTER)]]
+                for on, osrc in outers:
+                    i += 1
+                    m = msrc.replace('%d', str(i))
+                    body = m + esrc if i % 5 else esrc + m
+                    src = _pp('whole', osrc % _pp('block', bsrc % {'b': body, 'm': m.replace('grown', 'grownx')}))
+                    progs.append(({'block': bn, 'mutation': mn, 'exit': en, 'enclosing': on}, src))
+    for j in range(350 if tier == 'quick' else 20000):
+        state = [0]
+        src = ''.join(ns_random_block(r, r.choice([1, 2, 2, 3]), state) for _ in range(r.choice([1, 1, 2])))
+        progs.append(({'random_nesting': j}, _pp('whole', src) + '<dtml-var a>'))
+    n = 0
+    for desc, src in progs:
+        try:
+            t = HTML(src)
+            t.cook()
+        except Exception as e:  # noqa
+            res.oracle_fail.append({'case': dict(desc, src=src), 'what': 'the generated template does not parse: %r' % (e,)})
+            continue
+        shapes = NS_SHAPES if tier == 'thorough' else [NS_SHAPES[n % len(NS_SHAPES)], r.choice(NS_SHAPES)]
+        for shape in shapes:
+            cf = r.choice(NS_CALLFORMS)
+            level0 = r.choice([0, 0, 3, 150])
+            out, bad = ns_call(w, t, md, ns_held(w, shape), level0, cf)
+            n += 1
+            res.count('mutated_frames_outcome=%s' % ('ok' if 'ok' in out else out['raise']))
+            for f in bad[:3]:
+                res.oracle_fail.append({'case': dict(desc, family='mappings on the namespace change size inside a block',
+                                                     namespace=shape, call=cf, level=level0, src=src),
+                                        'what': f, 'result': out})
+        res.nt(('ns-mut', src))
+    res.evaluations += n
+    res.count('mutated_frames_runs', n)
+    res.count('mutated_frames_probe_pairs', w.pairs)
+
+
 def run(res, tier, have_driver):
     r = common.rng('C08')
     res.have_driver = have_driver
@@ -610,7 +1014,13 @@ def run(res, tier, have_driver):
                 'optionally with an ordinary fault at some depth; every invocation snapshots the namespace before and after the '
                 'block with the call, names of every frame kind are rendered after the catch, the outcome is predicted from who '
                 'catches.  (C) every generated program (main and sub-template) under such a Python caller at levels 170..202, '
-                'with faults and with template classes whose before/after rendering hooks return a value / None / raise')
+                'with faults and with template classes whose before/after rendering hooks return a value / None / raise.  (D) deep '
+                'namespaces under a Python caller: one template per tag that puts entries on the namespace x enclosing block x call '
+                'form, the whole family at every small depth, members in rotation at every depth of a long range, and around every '
+                'depth at which the outcome of any tag changes (exponential grid up to 2**16 entries + bisection).  (E) mappings '
+                'that are frames of the namespace gain / lose keys while a block is open (REQUEST.set, Python functions working on '
+                'the mapping / namespace they are handed, dtml-in mapping items, sub-templates): block tag x mutation x exit x '
+                'enclosing block grid and random nestings, x namespace shape x call form; every block bracketed by probe pairs')
     n_prog = 250 if tier == 'quick' else 3000
     cases, plans = [], []
     base = [proggen.wrap_case(proggen.gen_case(r, r.choice([2, 3, 3]), robust=r.random() < 0.7)) for _ in range(n_prog)]
@@ -655,6 +1065,8 @@ def run(res, tier, have_driver):
     rec_family(res, common.rng('C08-rec'), tier)
     python_caller(res, common.rng('C08-py'), base, tier)
     tree_leak_probe(res)
+    deep_namespaces(res, common.rng('C08-deep'), tier)
+    mutated_frames(res, common.rng('C08-mut'), tier)
     res.partial.append('dtml-tree is outside the interpreter model: its push/pop sites (tpRender, tpRenderTABLE, get_items) '
                        'are covered by the fault-injection oracle only')
     res.partial.append('renderings in which CPython\'s own stack ends before the engine\'s recursion guard (RecursionError inside '
